@@ -139,6 +139,11 @@ def parse_pipeline(ctx, rule):
 
 
 
+def kernel_attach(ex, p):
+    from . import kernel
+    return kernel.attach_calls(ex, p)
+
+
 def check(ctx):
     F = ctx.facts
     ctx.trust("regex-syntax: the parser rejects look-around syntax and reports syntax errors as Err")
@@ -175,7 +180,7 @@ def check(ctx):
                 # (that the compiled lookahead is attached to its own pattern — directly or through a list of pairs filled
                 # here and attached in a second loop — is kernel.lookahead_wiring, emitted below under C15.d as well; here: the
                 # Ok payload is not dropped)
-                al = p.calls(r"CompiledDfa::add_lookahead$")
+                al = kernel_attach(ex, p)
                 okp = ("field", ("downcast", la[0][4], "Ok"), "0")
                 kept = (len(al) == 1 and al[0][3][2] == okp) or any(e[0] == "call" and re.search(r"Vec::<.*>::push$", e[2]) and S.mentions(e[3][1], lambda x: x == okp) for e in p.events)
                 ctx.ob("C15.d", "mode:compiled-lookahead-is-kept", bool(kept), "the compiled lookahead is %s" % ("attached / collected" if kept else "dropped"), cp.loc())
